@@ -99,6 +99,8 @@ impl Optimizer for SGD {
 
         while t < maxsteps && !converged {
             t += 1;
+            #[cfg(feature = "verif-hooks")]
+            crate::verif_hooks::tick(crate::verif_hooks::Site::SgdStep);
             let prev_params = params.clone();
 
             let grad = if self.nesterov {
